@@ -102,12 +102,20 @@ pub fn level_after(tc: &TreeCtx, level: &[usize], first: bool, colon: bool, path
 pub fn gen_datum(rng: &mut Rng, uniq: &mut u32) -> Datum {
     *uniq += 1;
     let u = *uniq;
-    match rng.below(17) {
-        14 => Datum::Err(ErrSpec {
-            code: *rng.pick(&[-100i16, -222, -300, -350, 0, 7, -800, -113]),
-            ext: if rng.chance(1, 2) { Some(rng.below(16) as u8) } else { None },
-            msg: rng.below(8) as u8,
-        }),
+    match rng.below(18) {
+        17 => Datum::ChrList(
+            (0..rng.urange(1, 4))
+                .map(|k| if rng.chance(1, 3) { String::new() } else { format!("L{}X{}", u, k) })
+                .collect(),
+        ),
+        14 => {
+            let msg = rng.below(8) as u8;
+            Datum::Err(ErrSpec {
+                code: *rng.pick(&[-100i16, -222, -300, -350, 0, 7, -800, -113]),
+                ext: if msg != 6 && rng.chance(1, 2) { Some(rng.below(16) as u8) } else { None },
+                msg,
+            })
+        }
         15 => Datum::ArrList((0..rng.urange(1, 5)).map(|k| (u as i32) * 10 + k as i32 - 3).collect()),
         16 => Datum::VecList((0..rng.urange(1, 5)).map(|k| (u as u16).wrapping_mul(7).wrapping_add(k as u16)).collect()),
         0 => Datum::I64(-(u as i64) * 3),
@@ -981,9 +989,11 @@ pub fn gen_err_spec(rng: &mut Rng) -> ErrSpec {
     } else {
         rng.range(i16::MIN as i64, i16::MAX as i64) as i16
     };
+    let msg = rng.below(8) as u8;
     ErrSpec {
         code,
-        ext: if rng.chance(1, 3) { Some(rng.below(16) as u8) } else { None },
-        msg: rng.below(8) as u8,
+        // description 6 contains a string delimiter: only used without extended text
+        ext: if msg != 6 && rng.chance(1, 3) { Some(rng.below(16) as u8) } else { None },
+        msg,
     }
 }
